@@ -115,7 +115,7 @@ fn run_c11(ctx: &mut Ctx, rep: &mut Report) {
     let mut rng = ctx.rng("pairs");
     let n = ctx.tier.pick(12_000u64, 320_000);
     for i in 0..n {
-        if i % 256 == 0 && !ctx.time_left() { rep.note("time budget reached"); break }
+        if (i % 256 == 0 || cfg!(miri)) && !ctx.time_left() { rep.note("time budget reached"); break }
         let (old, new) = gen_pair(&mut rng);
         let serial = match rng.usize(4) { 0 => 0, 1 => u32::MAX, 2 => 0x7fff_ffff, _ => rng.u32() };
         if rep.samples.is_empty() && old != new && old.len() > 0 {
@@ -212,7 +212,7 @@ fn run_c12(ctx: &mut Ctx, rep: &mut Report) {
     let mut rng = ctx.rng("seqs");
     let n = ctx.tier.pick(4_000u64, 100_000);
     for i in 0..n {
-        if i % 128 == 0 && !ctx.time_left() { rep.note("time budget reached"); break }
+        if (i % 128 == 0 || cfg!(miri)) && !ctx.time_left() { rep.note("time budget reached"); break }
         let len = 2 + rng.usize(11);
         let mut seq = vec![match rng.usize(6) { 0 => Model::default(), _ => Model::rand(&mut rng) }];
         while seq.len() < len {
